@@ -25,7 +25,7 @@ from ..engine.exprs import implied, int_eval, norm, strip_casts, Unevaluable
 from ..engine.patterns import cfg_node_of, raised_class, simulate, stmt_of
 from ..engine.report import Report
 from ..engine.universe import AnalysisError, ClassInfo, FuncInfo, ancestors, own_nodes, parent_of
-from .c02 import FAITHFUL, Containers
+from .c02 import FAITHFUL, Containers, check_bulk_builder
 from .common import concrete_env
 from .walkmodel import WalkModel
 
@@ -40,6 +40,7 @@ def run(ctx: Ctx, rep: Report) -> None:
     rep.rule("C04-R4", "a constant subscript on a result list is preceded by an established length", floor=2)
     rep.rule("C04-R5", "a missing object (noSuchObject / noSuchInstance value) raises NoSuchOID for the requested OID", floor=4)
     rep.rule("C04-R6", "operations taking a caller-ordered OID list keep one result position per requested OID", floor=2)
+    rep.rule("C04-R7", "get-bulk: size bound, OID list, counters and response split agree (shared with C02-R2/R3)", floor=30)
     rep.assumptions += ["the response PDU's binding list is what the agent sent (C06)", "request-id handling is C07, error-status handling is C08, GETBULK bound is C02"]
     client = ctx.client()
     send = ctx.send_method()
@@ -240,6 +241,8 @@ def run(ctx: Ctx, rep: Report) -> None:
 
     # ---------------------------------------------------------------- R6
     wm = WalkModel(ctx)
+    check_bulk_builder(ctx, rep, wm, "C04-R7", "C04-R7")
+    check_bulkget_result(ctx, rep, client)
     for name in ("multigetnext", "multiget"):
         meth = client.methods.get(name)
         if meth is None:
@@ -321,3 +324,38 @@ def nonempty_established(ctx: Ctx, fn: FuncInfo, sub: ast.Subscript, res: str) -
             # a condition such as `not res or X` being False also implies res truthy
             return False
     return True
+
+
+def check_bulkget_result(ctx: Ctx, rep: Report, client: ClassInfo) -> None:
+    """The public bulkget reports scalars and repeaters as mappings built from the two halves of the response."""
+    meth = client.methods.get("bulkget")
+    if meth is None:
+        rep.undecided("C04-R7", f"{client.module.path} (Client)", "bulkget exists", "missing")
+        return
+    defs = ctx.defs(meth)
+    rets = [n for n in own_nodes(meth.node) if isinstance(n, ast.Return) and isinstance(n.value, ast.Call)]
+    ok = False
+    detail = ""
+    if len(rets) == 1 and len(rets[0].value.args) == 2:
+        sc, ls = rets[0].value.args
+        unp = {name: entries for name, entries in defs.unpack.items()}
+        # names bound by tuple-unpacking the awaited helper: index 0 = scalars, 1 = repeaters
+        def source_index(expr: ast.AST) -> Optional[int]:
+            names = {n.id for n in ast.walk(defs.expand(expr)) if isinstance(n, ast.Name)}
+            for name in names:
+                for value, idx, _ in unp.get(name, []):
+                    return idx
+            # built by a loop over an unpacked name
+            if isinstance(expr, ast.Name):
+                for node in own_nodes(meth.node):
+                    if isinstance(node, ast.For):
+                        for sub in ast.walk(node):
+                            if isinstance(sub, ast.Assign) and isinstance(sub.targets[0], ast.Subscript) and norm(sub.targets[0].value) == expr.id:
+                                if isinstance(node.iter, ast.Name):
+                                    for value, idx, _ in unp.get(node.iter.id, []):
+                                        return idx
+            return None
+
+        ok = source_index(sc) == 0 and source_index(ls) == 1
+        detail = f"BulkResult({norm(sc)} <- element {source_index(sc)}, {norm(ls)} <- element {source_index(ls)})"
+    rep.check(ok, "C04-R7", meth.site(), "bulkget reports the non-repeater bindings as scalars and the repetitions as listing (not swapped, nothing invented)", detail, key=f"{meth.key}|result-halves")
